@@ -108,6 +108,9 @@ func genOp(t *rapid.T, ntypes int, g *genState) Op {
 // Gen draws a case.
 func Gen(t *rapid.T) *Case {
 	c := &Case{Types: genTypes(t)}
+	if rapid.Bool().Draw(t, "hasAmbient") {
+		c.Ambient = rapid.IntRange(0, busmodel.AmbAll).Draw(t, "ambient")
+	}
 	nt := len(c.Types)
 	g := &genState{subs: map[int][][2]int{}}
 	nops := rapid.IntRange(1, 40).Draw(t, "nops")
